@@ -86,7 +86,7 @@ def gen():
 
 def sh(cmd, cwd, timeout=900, env=None):
     try:
-        p = subprocess.run(cmd, cwd=cwd, env=env or ENV, stdout=subprocess.PIPE, stderr=subprocess.STDOUT, text=True, timeout=timeout)
+        p = subprocess.run(cmd, cwd=cwd, env=env or ENV, stdout=subprocess.PIPE, stderr=subprocess.STDOUT, text=True, errors="replace", timeout=timeout)
         return p.returncode, p.stdout
     except subprocess.TimeoutExpired:
         return 124, "timeout"
@@ -158,7 +158,11 @@ def run(n, workers):
     with ThreadPoolExecutor(max_workers=workers) as ex, open(donep, "a") as f:
         futs = [ex.submit(run_one, m) for m in todo]
         for fu in as_completed(futs):
-            r = fu.result()
+            try:
+                r = fu.result()
+            except Exception as e:  # keep the sweep going
+                print("worker error:", repr(e), flush=True)
+                continue
             f.write(json.dumps(r) + "\n")
             f.flush()
             print(r["id"], r["file"], r["line"], r["op"], "->", r["status"], r.get("detected_by", ""), flush=True)
